@@ -446,6 +446,36 @@ func runCase(c *Case, d *driver, opts runOpts) (res caseResult) {
 				if k := strings.IndexByte(want, ' '); k >= 0 {
 					want, wantANSI = want[:k], want[k+1:]
 				}
+				wantSub := ""
+				if k := strings.IndexByte(wantANSI, ' '); k >= 0 {
+					wantANSI, wantSub = wantANSI[:k], wantANSI[k+1:]
+				}
+				if act := b2i(post.OnAlt); got == want && wantSub != "" && b == act {
+					// StyledLine(x, w, y) of the real grid buffer for the same family of sub-ranges
+					W := len(cells)
+					var subs []string
+					for _, xw := range [][2]int{{0, W}, {1, W - 1}, {1, W - 2}, {2, 1}, {2, 2}, {W / 2, W - W/2}, {W / 3, W / 2}} {
+						x, w := xw[0], xw[1]
+						if x+w > W || w <= 0 {
+							subs = append(subs, "x")
+							continue
+						}
+						l := im.vt.Terminal().StyledLine(x, w, y)
+						var ps []string
+						for _, sp := range l.Spans {
+							st := te.VerifStyleRaw(sp.Style)
+							ps = append(ps, fmt.Sprintf("%x.%x.%x;%s;%d;%d", st[0], st[1], st[2], hexOrDash([]byte(sp.Text)), sp.Rune, sp.Width))
+						}
+						if len(ps) == 0 {
+							subs = append(subs, "-")
+						} else {
+							subs = append(subs, strings.Join(ps, "+"))
+						}
+					}
+					if a := strings.Join(subs, "/"); a != wantSub {
+						got, want = got+" StyledLine "+a, want+" StyledLine "+wantSub
+					}
+				}
 				if act := b2i(post.OnAlt); got == want && wantANSI != "" && b == act {
 					// what ANSILine(y) of the real grid buffer renders (it reads the rune array)
 					if a := hexOrDash([]byte(im.vt.Terminal().ANSILine(y))); a != wantANSI {
